@@ -268,7 +268,8 @@ class TypedNode(Node):
                 f"must be a child of target node ({self})"
             )
 
-        if isinstance(child, self._tree.__class__):
+        # Note: the target tree's class may be derived from the source's class
+        if isinstance(child, TypedTree):
             if deep is None:
                 deep = True
             if deep and child is self._tree:
